@@ -142,6 +142,20 @@ def _theorem_names(path: Path) -> List[str]:
     return names
 
 
+def _import_closure(path: Path) -> List[Path]:
+    """project files transitively imported by `path` (including itself)."""
+    seen: Dict[Path, None] = {}
+    todo = [path]
+    while todo:
+        p = todo.pop()
+        if p in seen or not p.exists():
+            continue
+        seen[p] = None
+        for m in re.finditer(r'^\s*import\s+(BoboVerif(?:\.\w+)+)', p.read_text(), re.M):
+            todo.append(LEAN / (m.group(1).replace('.', '/') + '.lean'))
+    return sorted(seen)
+
+
 def lean_build_and_audit(prop: str, extra_modules: List[str] = (), thorough: bool = False) -> LeanStatus:
     t0 = time.time()
     st = LeanStatus()
@@ -149,8 +163,8 @@ def lean_build_and_audit(prop: str, extra_modules: List[str] = (), thorough: boo
     st.theorems = _theorem_names(props_file)
     mod = f'BoboVerif.Props.{prop}'
 
-    # hygiene grep over the whole Lean tree (comments stripped)
-    for p in sorted((LEAN / 'BoboVerif').rglob('*.lean')) + [LEAN / 'Main.lean']:
+    # hygiene grep over everything this property's module imports inside the project (comments stripped)
+    for p in _import_closure(props_file):
         m = FORBIDDEN.search(strip_lean_comments(p.read_text()))
         if m:
             st.messages.append(f"hygiene: forbidden token {m.group(0).strip()!r} in {rel(p)}")
